@@ -157,6 +157,40 @@ def number_test(ctx: Ctx) -> None:
                    "(coordinates, areas, weights) then admit or refuse other values than the documented ones", lineno=fn.node.lineno)
 
 
+def tolerance_positive(ctx: Ctx) -> None:
+    """the size the class-wide tolerance is derived from is a positive length: in the netlist's definition every square root of
+    a module area is taken only for a positive area (a terminal has area 0: the tolerance would become 0, which still counts as
+    'defined', and abutting rectangles with one-ulp noise are then overlapping)"""
+    from .common import NETLIST, stmt_calls, norm_stmt, facts_text
+    f = ctx.func(NETLIST, "Netlist._create_rectangles")
+    g = ctx.cfg(f)
+    n = 0
+    for node, c, s in stmt_calls(ctx, f):
+        if call_name(c) != "sqrt" or s is None or not s[2]:
+            continue
+        n += 1
+        arg = s[2][0]
+        facts = g.facts_at(node.id)
+        in_comp = any(isinstance(x, (ast.ListComp, ast.GeneratorExp, ast.SetComp)) and any(y is c for y in ast.walk(x))
+                      and not any(any(z is c for z in ast.walk(e)) for gen in x.generators for e in [gen.iter]) for x in ast.walk(node.ast))
+        ok = mk_lt(k_num(0), arg) in facts and not in_comp
+        if in_comp:
+            # inside a comprehension the guard is the comprehension's own condition
+            for x in ast.walk(node.ast):
+                if isinstance(x, (ast.ListComp, ast.GeneratorExp, ast.SetComp)) and any(y is c for y in ast.walk(x.elt)):
+                    cn = g.canon()
+                    conds = [cn.expr(i_) for gen in x.generators for i_ in gen.ifs]
+                    inner = cn.expr(c.args[0]) if c.args else None
+                    ok = any(cd == mk_lt(k_num(0), inner) or (cd[0] == "and" and mk_lt(k_num(0), inner) in cd[1]) for cd in conds)
+        ctx.site(f.where, "sqrt(area) feeds the tolerance only for a positive area", stmt=norm_stmt(node.ast)[:80], guarded=ok)
+        if not ok:
+            ctx.report(f.where, f"tolerance-from-zero-area {norm_stmt(node.ast)[:70]}", "the netlist derives the class-wide tolerance from sqrt(area) of modules whose area can be 0 "
+                       "(terminals): the tolerance becomes 0 and stays 'defined', so dies and allocations with decimal coordinates are rejected as overlapping",
+                       lineno=c.lineno, facts=facts_text(facts))
+    ctx.require(n >= 1, "_create_rectangles: the square root of the module areas was not found")
+
+
+_POS = ("GUARD", "the class-wide tolerance is derived from positive lengths only: sqrt(module area) enters it only for area > 0")
 _NUM = ("SHARED", "is_number(n) is the plain type test 'n is an int or a float' that every reader relies on for coordinates, areas and weights")
 _TOL = ("SHARED", "tolerance primitives: set_epsilon stores the distance tolerance and defaults the area tolerance to its square root, the getters "
         "hand the stored values out, almost_eq is the absolute test abs(a - b) < eps, overlap is area_overlap > area tolerance")
@@ -170,5 +204,7 @@ for _p in ["C01", "C02", "C03", "C05", "C10", "C11", "C12", "C13", "C14", "C17",
     rule(_p, "P2.stored-as-given", *_STO, floor=3)(stored_as_given)
 for _p in ["C01", "C04", "C05", "C19"]:
     rule(_p, "P4.number-test", *_NUM, floor=1)(number_test)
+for _p in ["C01", "C02", "C20"]:
+    rule(_p, "P5.tolerance-positive", *_POS, floor=1)(tolerance_positive)
 for _p in ["C10", "C13", "C14"]:
     rule(_p, "P3.centre-setter", *_SET, floor=1)(module_setters_pure)
